@@ -156,3 +156,34 @@ Proof.
   repeat ((rewrite minus_set_In by (apply plus_not_map || apply norm_set_not_map)) || rewrite plus_set_In || rewrite as_set_norm);
   tauto.
 Qed.
+
+(* ------------------------------------------------------------------ value managers *)
+Lemma zlist_eqb_refl : forall l, zlist_eqb l l = true.
+Proof. induction l; simpl; auto. rewrite Z.eqb_refl. auto. Qed.
+Lemma zmap_eqb_refl : forall m, zmap_eqb m m = true.
+Proof. induction m as [|[k v] m IH]; simpl; auto. rewrite !Z.eqb_refl. auto. Qed.
+Lemma val_eqb_refl : forall v, val_eqb v v = true.
+Proof. induction v; simpl; auto using Z.eqb_refl, zlist_eqb_refl, zmap_eqb_refl. Qed.
+
+(* Model._set_persisted takes a SNAPSHOT (value semantics = deepcopy): afterwards no column counts as changed, whatever it holds *)
+Lemma persisted_unchanged : forall cols c, In c (set_persisted cols) -> vm_changed c = false.
+Proof.
+  intros cols c H. unfold set_persisted in H. apply in_map_iff in H. destruct H as (c0 & <- & _).
+  destruct (vm_changed c0) eqn:E; auto.
+  unfold vm_changed. simpl. rewrite val_eqb_refl. destruct (is_container (c_kind c0)); auto. rewrite andb_false_r. auto.
+Qed.
+
+(* DMLQuery.update leaves the clustering key out of WHERE only when EVERY column it assigns is static *)
+Lemma update_key_choice : forall cols sets key,
+  In (CUpdate sets key) (dml_update cols) ->
+  let upd := filter (fun c => negb (c_pkey c) && negb (val_eqb (c_val c) VNone) &&
+                              (vm_changed c || match c_kind c with KCounterC => true | _ => false end)) cols in
+  key = key_kvs cols (forallb c_static upd) /\
+  ((exists c, In c upd /\ c_static c = false) -> key = key_kvs cols false).
+Proof.
+  intros cols sets key H upd. unfold dml_update in H. fold upd in H. apply in_app_or in H. destruct H as [H|H].
+  - destruct (flat_map _ upd) eqn:E; [destruct H|]. destruct H as [H|[]]. inversion H; subst. split; auto.
+    intros (c & Hc & Hs). replace (forallb c_static upd) with false; auto.
+    symmetry. apply not_true_is_false. intro F. rewrite forallb_forall in F. rewrite (F c Hc) in Hs. discriminate.
+  - exfalso. unfold delete_null_columns in H. destruct (existsb _ cols); simpl in H; [destruct H as [H|[]]; discriminate | destruct H].
+Qed.
